@@ -150,3 +150,4 @@ CFG.setdefault('trusted_extra', []).append(
     'after it with Commit(true) iff it returned an error; exits 3 on any other shape); c09_writer_follows_bracket ties the model writer to it')
 
 CFG['rule'] = CFG['rule'] + ' ' + 'The stress runs have one more client that keeps calling Shard.Info. Forced runs, phase C (nothing concurrent): on a sparse graph of 500 points, on caches created by an earlier finished read transaction, six searches from other regions and six exact-regime searches (pre-filter of 12 live points, limit 12: exactly those must come back). Within one run a failure code that is not a known symptom is reported in preference to one that is.'
+CFG['rule'] = CFG['rule'] + ' ' + 'Forced schedules: one in four runs with a cache manager whose budget is one byte (whatever is registered is evicted when a request ends, also a cache its writer still holds; the next search registers a cache built from the data before the commit, which the commit must discard).'
